@@ -174,6 +174,14 @@ EXPORT char *_gets_s_chk(char *restrict dest, rsize_t dmax,
 #ifdef SAFECLIB_STR_NULL_SLACK
             memset(dest, 0, dmax);
 #endif
+        } else {
+            /* K.3.5.4.1: end-of-file without any character read, or a read
+               error: s[0] is set to the null character */
+#ifdef SAFECLIB_STR_NULL_SLACK
+            memset(dest, 0, dmax);
+#else
+            *dest = '\0';
+#endif
         }
     }
 
